@@ -161,7 +161,7 @@ Definition media_split (ts : list tok) : media_parts :=
           then Some (media_inner body') else None).
 
 (* ---- CSSUnknownRule (cssunknownrule.py:76-198); input: tokens after the ATKEYWORD ---- *)
-Inductive uitem := UTok (t : tok) | UClose (c : str) | UNested (run : list tok).
+Inductive uitem := UTok (t : tok) | UClose (c : str).
 Record ustate := mkU { u_nest : list str; u_eof : bool; u_wf : bool; u_seq : list uitem (* reversed *) }.
 
 Definition opening_of (v : str) : option str :=
@@ -206,10 +206,8 @@ Fixpoint unk_loop (st : ustate) (ts : list tok) (skip : nat) : ustate :=
       else if tyis t "EOF" then                                             (* l.122-128 *)
         unk_loop (mkU [] true (u_wf st) (rev (map (fun x => UClose (closing_of x)) (u_nest st)) ++ u_seq st)) r 0
       else if tyis t "INVALID" then unk_loop (mkU (u_nest st) (u_eof st) false (u_seq st)) r 0
-      else if tyis t "ATKEYWORD" then                                       (* util.py:516-529 *)
-        if u_eof st then unk_loop (mkU (u_nest st) true false (u_seq st)) r 0
-        else let '(run, _) := upto FDefault (Some t) r in
-             unk_loop (mkU (u_nest st) false (u_wf st) (UNested run :: u_seq st)) r (length run - 1)
+      (* ATKEYWORD: fix "CSSUnknownRule keeps a nested at-keyword as one of its own tokens": the
+         `default` handler (u_plain below), no nested pull *)
       else if tyis t "COMMENT" then                                         (* util.py:531-537 *)
         unk_loop (mkU (u_nest st) (u_eof st) (u_wf st && negb (u_eof st)) (UTok t :: u_seq st)) r 0
       else unk_loop (u_plain st t) r 0
